@@ -777,15 +777,20 @@ def _templates(ctx) -> list[Inst]:
     if fn is None:
         raise AnalysisError('AttackGraphNode.full_name not found')
     ref = None
-    for n in own_nodes(fn.node):
-        if isinstance(n, ast.Assign) and isinstance(n.value, (ast.BinOp, ast.JoinedStr)):
-            t = _template(n.value)
-            if t and 'asset' in stmt_text(n.value):
-                ref = t
+    # every string-building expression of the property, in any statement form (assignment, return,
+    # either arm of a conditional expression): the one mentioning the asset is the reference
+    cands = [n for n in own_nodes(fn.node) if isinstance(n, (ast.BinOp, ast.JoinedStr))]
+    for n in cands:
+        t = _template(n)
+        if t and 'asset' in stmt_text(n) and len(t) > 1:
+            ref = t
+            break
     if ref is None:
-        for n in own_nodes(fn.node):
-            if isinstance(n, ast.Return) and isinstance(n.value, (ast.BinOp, ast.JoinedStr)):
-                ref = _template(n.value)
+        for n in cands:
+            t = _template(n)
+            if t and len(t) > 1:
+                ref = t
+                break
     if ref is None:
         raise AnalysisError('full-name template of AttackGraphNode.full_name not recognised')
     sites = [('AttackGraph._generate_graph', ('C01', 'C02')), ('AttackGraph.attach_attackers', ('C11',))]
